@@ -9,7 +9,6 @@
     D30  `adjust_cross_origin_area`: only protoclusters take the core branches
     D31  `adjust_cross_origin_area`: the side of the core is `core_start >= feature.start`
   Mutation through `self`/closures becomes returned values; `ValueError`/`assert` become `none`.
-  Strings irrelevant to the layout (prefix, category, tool) are not modelled.
   No imports outside ASV.Model (driver-linkable).
 -/
 import ASV.Model.Loc
@@ -36,6 +35,20 @@ inductive Kind where
   | proto | cand | sub
 deriving DecidableEq, Repr, Inhabited
 
+/-- the strings `Area.from_feature` reads from a feature -/
+structure Labels where
+  /-- `product` (protocluster) / `"CC n: kind"` (candidate cluster) / `label` (subregion) -/
+  product : String := ""
+  /-- `feature.tool` (protoclusters, subregions) -/
+  tool : String := ""
+  /-- `feature.product_category` (protoclusters) -/
+  category : String := ""
+  /-- `isinstance(feature, SideloadedProtocluster / SideloadedSubRegion)` -/
+  sideloaded : Bool := false
+deriving DecidableEq, Repr, Inhabited
+
+instance : Coe String Labels := ⟨fun s => { product := s }⟩
+
 /-- a `CDSCollection` as seen by `pack` / `build_area_rows` -/
 structure Feat where
   loc : Loc
@@ -44,11 +57,12 @@ structure Feat where
   core : Loc := default
   /-- `candidate.kind == SINGLE` -/
   single : Bool := false
-  /-- the label `Area.from_feature` derives (product / "CC n: kind" / subregion label) -/
-  product : String := ""
+  /-- product / tool / category / sideloaded -/
+  labels : Labels := {}
 deriving DecidableEq, Repr, Inhabited
 
 namespace Feat
+def product (f : Feat) : String := f.labels.product
 def start (f : Feat) : Int := locStart f.loc
 def «end» (f : Feat) : Int := locEnd f.loc
 /-- `CDSCollection.crosses_origin`: `len(location.parts) > 1` -/
@@ -108,6 +122,9 @@ structure Area where
   nend : Int
   product : String := ""
   group : Int := 0
+  «prefix» : String := ""
+  category : String := ""
+  tool : String := ""
 deriving DecidableEq, Repr, Inhabited
 
 /-- `Area.crosses_origin` -/
@@ -117,13 +134,20 @@ def Area.crossesOrigin (a : Area) : Bool := decide (a.nstart > a.nend)
 def Area.offset (a : Area) (d : Int) : Area :=
   { a with start := a.start + d, «end» := a.end + d, nstart := a.nstart + d, nend := a.nend + d }
 
-/-- `Area.from_feature(feature, height=height)` (the two asserts hold by construction) -/
+/-- `Area.from_feature(feature, height=height)` (the two asserts hold by construction): the
+    core coordinates, category and tool of a protocluster, `"tool:"` as prefix of a sideloaded
+    protocluster, `tool` + `":"`-if-labelled as prefix of a sideloaded subregion, the tool of
+    an ordinary subregion -/
 def Area.fromFeature (f : Feat) (height : Int) : Area :=
+  let l := f.labels
   let base : Area := { start := f.start, «end» := f.end, kind := f.kind, height := height,
-                       nstart := f.start, nend := f.end, product := f.product }
+                       nstart := f.start, nend := f.end, product := l.product }
   match f.kind with
-  | .proto => { base with start := f.coreStart, «end» := f.coreEnd }
-  | _ => base
+  | .proto => { base with start := f.coreStart, «end» := f.coreEnd, category := l.category, tool := l.tool,
+                          «prefix» := if l.sideloaded then l.tool ++ ":" else "" }
+  | .cand => base
+  | .sub => { base with «prefix» := if l.sideloaded then l.tool ++ (if l.product != "" then ":" else "") else "",
+                        tool := if l.sideloaded then "" else l.tool }
 
 /-- `adjust_cross_origin_area(area, feature, region_crosses_origin, length)`.
     Returns the modified `area` and the optional `extra`; `gid` is the value `id(self)` that
@@ -163,6 +187,35 @@ def adjustCrossOrigin (area : Area) (f : Feat) (regionCrosses : Bool) (L : Int) 
       let area := { area with group := gid }
       let extra := { area with nstart := 0 }
       some ({ area with start := L, «end» := L, product := "", nend := L }, some extra)
+
+/-! ### Area.to_minimal_json -/
+
+/-- a JSON value as far as areas need them -/
+inductive JVal where
+  | int (i : Int)
+  | str (s : String)
+deriving DecidableEq, Repr, Inhabited
+
+/-- `feature.FEATURE_TYPE` (`"candidatecluster"` is set by `from_feature`) -/
+def kindName : Kind → String
+  | .proto => "protocluster" | .cand => "candidatecluster" | .sub => "subregion"
+
+/-- `dataclasses.asdict(self)`: the fields in declaration order -/
+def Area.asdict (a : Area) : List (String × JVal) :=
+  [("start", .int a.start), ("end", .int a.end), ("kind", .str (kindName a.kind)), ("height", .int a.height),
+   ("neighbouring_start", .int a.nstart), ("neighbouring_end", .int a.nend), ("product", .str a.product),
+   ("prefix", .str a.prefix), ("category", .str a.category), ("tool", .str a.tool), ("group", .int a.group)]
+
+/-- `base.pop(key)` -/
+def popKey (k : String) (l : List (String × JVal)) : List (String × JVal) := l.filter (·.1 != k)
+
+/-- `Area.to_minimal_json`: empty strings are dropped (`val != ""`, so a height of 0 stays), then
+    the neighbouring coordinates that equal the core's and a zero group -/
+def Area.toMinimalJson (a : Area) : List (String × JVal) :=
+  let base := a.asdict.filter fun kv => kv.2 != JVal.str ""
+  let base := if a.nstart == a.start then popKey "neighbouring_start" base else base
+  let base := if a.nend == a.end then popKey "neighbouring_end" base else base
+  if a.group == 0 then popKey "group" base else base
 
 /-! ### build_area_rows -/
 
@@ -296,7 +349,20 @@ def convertCdsFrom (c : Ctx) : List GeneView → Nat → List Orf
 /-- `convert_cds_features(record, region.cds_children, …)` -/
 def convertCds (c : Ctx) (genes : List GeneView) : List Orf := convertCdsFrom c genes 0
 
-/-! ### Region.get_unique_protoclusters: the cross-origin sort key -/
+/-! ### Region.get_unique_protoclusters -/
+
+/-- a `Protocluster` object: its Python identity (`Feature` defines neither `__eq__` nor
+    `__hash__`, so sets hold objects by identity) and what the layout reads from it -/
+structure PObj where
+  id : Nat
+  feat : Feat
+deriving DecidableEq, Repr, Inhabited
+
+/-- a `CandidateCluster` with its `protoclusters` tuple -/
+structure Cand where
+  feat : Feat
+  members : List PObj
+deriving Repr, Inhabited
 
 /-- `reduction(collection)` with `record_length = region.location.parts[0].end`;
     `start < record_length / 2` is compared exactly as `2 * start < record_length` -/
@@ -306,13 +372,49 @@ def reductionKey (c : Ctx) (p : Feat) : Int × Int × String :=
     (p.start + recordLength, -p.loc.len, p.product)
   else (p.start, -p.loc.len, p.product)
 
+/-- tuple comparison `a <= b` -/
 def keyLe (a b : Int × Int × String) : Bool :=
   decide (a.1 < b.1) || (a.1 == b.1 && (decide (a.2.1 < b.2.1) || (a.2.1 == b.2.1 && decide (a.2.2 ≤ b.2.2))))
 
-/-- the delivered order is non-decreasing in the key -/
+/-- `clusters.update(candidate_cluster.protoclusters)` for one object: a set keeps it once -/
+def setAdd (acc : List PObj) (p : PObj) : List PObj :=
+  if acc.any (·.id == p.id) then acc else acc ++ [p]
+
+/-- `clusters = set(); for candidate in candidates: clusters.update(candidate.protoclusters)`.
+    The list stands for the set in *some* iteration order (first insertion here; CPython's is by
+    hash — only the relative order of protoclusters with equal sort keys depends on it). -/
+def gatherProtoclusters (cands : List Cand) : List PObj :=
+  (cands.flatMap (·.members)).foldl setAdd []
+
+/-- one step of a stable sort by the key: `p` goes before the first element with a larger or
+    equal key (it came earlier in the input) -/
+def insertByKey (c : Ctx) (p : PObj) : List PObj → List PObj
+  | [] => [p]
+  | q :: qs =>
+    if keyLe (reductionKey c p.feat) (reductionKey c q.feat) then p :: q :: qs
+    else q :: insertByKey c p qs
+
+/-- `sorted(clusters, key=reduction)` (stable) -/
+def sortByKey (c : Ctx) (l : List PObj) : List PObj := l.foldr (insertByKey c) []
+
+/-- `region.get_unique_protoclusters()` -/
+def uniqueProtoclusters (c : Ctx) (cands : List Cand) : List PObj :=
+  sortByKey c (gatherProtoclusters cands)
+
+/-- the list is non-decreasing in the key -/
 def sortedByKey (c : Ctx) : List Feat → Bool
   | [] => true
   | [_] => true
   | p :: q :: rest => keyLe (reductionKey c p) (reductionKey c q) && sortedByKey c (q :: rest)
+
+/-- the inputs of `build_area_rows` for a region given by its children: the protoclusters are
+    whatever `get_unique_protoclusters` delivers -/
+def regionIn (c : Ctx) (subs : List Feat) (cands : List Cand) : RegionIn :=
+  { subregions := subs, candidates := cands.map (·.feat),
+    protos := (uniqueProtoclusters c cands).map (·.feat) }
+
+/-- `build_area_rows(region, …)` from the region's children -/
+def buildRegion (c : Ctx) (subs : List Feat) (cands : List Cand) : Option (List Area) :=
+  buildAreaRows c (regionIn c subs cands)
 
 end ASV.Packing
